@@ -358,7 +358,42 @@ def ls_item(it, m, n, dtype):
             assert m == n
             sg = torch.where(torch.rand(r, generator=g) < 0.5, -1.0, 1.0).double()
             V = U * sg
-        A = ((U[:, :r] * s) @ V[:, :r].T * (2.0 ** it.get("ascale", 0))).to(dt)
+        Abase = (U[:, :r] * s) @ V[:, :r].T
+        nr = it.get("near")
+        if nr:
+            # (36) a matrix at relative distance 10^-dexp from a structured one (symmetric / triangular / diagonal /
+            # rank-deficient / zero): the band between round-off and any "helpful" tolerance a heuristic might use
+            dl = 10.0 ** -nr["dexp"]
+            G = torch.randn(m, n, generator=g, dtype=torch.float64)
+            if nr["struct"] in ("sym", "symrel") and m == n:
+                Sb = (U * s) @ U.T
+                Sb = (Sb + Sb.T) / 2
+                if nr["struct"] == "symrel":       # element-wise relative asymmetry: S * (1 + delta * R)
+                    Abase = Sb * (1 + dl * torch.rand(n, n, generator=g, dtype=torch.float64))
+                else:
+                    E = (G - G.T) / 2
+                    Abase = Sb + dl * float(s[0]) * E / float(E.norm().clamp_min(1e-300)) * n
+            elif nr["struct"] in ("tril", "triu") and m == n:
+                T_ = torch.tril(G) * 0.3 / max(n, 1) ** 0.5 + torch.diag(s * torch.where(torch.rand(n, generator=g) < 0.5, -1.0, 1.0).double())
+                T_ = torch.tril(T_)
+                E = torch.triu(G, 1)
+                Abase = T_ + dl * float(s[0]) * E / float(E.norm().clamp_min(1e-300)) * n
+                if nr["struct"] == "triu":
+                    Abase = Abase.T.contiguous()
+            elif nr["struct"] == "diag" and m == n:
+                E = G - torch.diag(torch.diag(G))
+                Abase = torch.diag(s) + dl * float(s[0]) * E / float(E.norm().clamp_min(1e-300)) * n
+            elif nr["struct"] == "stencil" and m == n:   # convection-diffusion stencil: off-diagonals -1 -+ delta
+                Abase = 2.5 * torch.eye(n, dtype=torch.float64)
+                for i_ in range(n - 1):
+                    Abase[i_, i_ + 1] = -1 - dl
+                    Abase[i_ + 1, i_] = -1 + dl
+            elif nr["struct"] == "lowrank" and r > 1:   # smallest singular value = delta * largest
+                s2 = s.clone(); s2[-1] = dl * float(s[0])
+                Abase = (U[:, :r] * s2) @ V[:, :r].T
+            elif nr["struct"] == "zero":
+                Abase = dl * Abase
+        A = (Abase * (2.0 ** it.get("ascale", 0))).to(dt)
         Ad = A.double()
         if it.get("sym"):
             Ad = ((Ad + Ad.T) / 2).to(dt).double()
@@ -741,6 +776,13 @@ def chol_item(it, n, dtype):
             d = 2.0 ** torch.randint(-it["dscale"], it["dscale"] + 1, (n,), generator=g).double()
             A = d[:, None] * A * d[None, :]
         A = A * 2.0 ** it.get("scale", 0)
+    elif kind == "neardiag":      # (36) SPD at relative distance 10^-dexp from a diagonal matrix
+        dg = torch.logspace(0, -it.get("cexp", 1), n, dtype=torch.float64) if n > 1 else torch.ones(1, dtype=torch.float64)
+        E = torch.randn(n, n, generator=g, dtype=torch.float64)
+        E = (E + E.T) / 2
+        E = E - torch.diag(torch.diag(E))
+        A = torch.diag(dg) + 10.0 ** -it["dexp"] * float(dg.min()) * E / float(E.abs().sum(dim=1).max().clamp_min(1e-300))
+        A = A * 2.0 ** it.get("scale", 0)
     elif kind == "intspd":
         Bm = torch.randint(-3, 4, (n, n), generator=g).double()
         A = Bm @ Bm.T + torch.eye(n, dtype=torch.float64)
@@ -996,6 +1038,12 @@ def spd_matrix(n, kind, cexp, g):
         return A + shift * torch.eye(n, dtype=torch.float64)
     if kind == "ident":     # all eigenvalues equal (exact)
         return torch.eye(n, dtype=torch.float64)
+    if kind.startswith("neardiag"):   # (36) SPD at relative distance 10^-k from a diagonal matrix ("neardiag:k")
+        dg = torch.logspace(0, -cexp, n, dtype=torch.float64) if n > 1 else torch.ones(1, dtype=torch.float64)
+        E = torch.randn(n, n, generator=g, dtype=torch.float64)
+        E = (E + E.T) / 2
+        E = E - torch.diag(torch.diag(E))
+        return torch.diag(dg) + 10.0 ** -int(kind.split(":")[1]) * float(dg.min()) * E / float(E.abs().sum(dim=1).max().clamp_min(1e-300))
     Q, _ = torch.linalg.qr(torch.randn(n, n, generator=g, dtype=torch.float64))
     if kind == "log":
         lam = torch.logspace(0, -cexp, n, dtype=torch.float64) if n > 1 else torch.ones(1, dtype=torch.float64)
@@ -1730,6 +1778,17 @@ def corner_cases():
                         C["cg"].append(cg(4, 500 + kf, cexp=1, tol=tol, maxiter=mi, x0=x0, M=Mk, b=bk,
                                           style=("pos", "kw", "kwonly", "mixed")[kf % 4], grad=("plain", "nograd", "inference", "param")[(kf // 4) % 4]))
                         kf += 1
+    # (36) nearly structured: relative distance 1e-4 … 1e-12 from symmetric / triangular / diagonal / rank-deficient / zero
+    for solver in ("PINV", "LSTSQ", "LSTSQ:gelsd"):
+        for st_ in ("sym", "symrel", "stencil", "tril", "triu", "diag"):
+            for dex in (4, 6, 8, 12):
+                C["ls"].append(ls(solver, 6, 6, [{"cexp": 1, "near": {"struct": st_, "dexp": dex}}]))
+        C["ls"] += [ls(solver, 5, 5, [{"cexp": 1, "near": {"struct": "symrel", "dexp": 6}}] * 3, batch=(3,)),
+                    ls(solver, 9, 9, [{"cexp": 2, "near": {"struct": "stencil", "dexp": 6}}], dtype="float64"),
+                    ls(solver, 4, 4, [{"cexp": 0, "near": {"struct": "symrel", "dexp": 3}}], dtype="float32"),
+                    ls(solver, 7, 5, [{"cexp": 0, "near": {"struct": "lowrank", "dexp": 6}}]),
+                    ls(solver, 5, 8, [{"cexp": 0, "near": {"struct": "lowrank", "dexp": 8}, "b": "consistent"}]),
+                    ls(solver, 5, 5, [{"cexp": 1, "near": {"struct": "zero", "dexp": 12}}])]
     # (16) special sizes: 3 everywhere, batch sizes equal to a matrix dimension, 1 in either batch position, primes
     for solver in ("PINV", "LSTSQ"):
         C["ls"] += [ls(solver, 3, 3, [{}, {"cexp": 2}, {"kind": "int", "r": 2, "cexp2": 0}], batch=(3,)),
@@ -1792,6 +1851,196 @@ def check_cg_entry(ctx: Ctx):
             ctx.disagree("cg.entry", case, f"model rejects rank {k} ({rep}), implementation returned")
 
 
+def check_shared_defaults(ctx: Ctx):
+    """(29) several DEFAULT-constructed solvers of each class (optional arguments omitted) alive in one process and used
+    interleaved on systems of different sizes: each must show the documented default behaviour (CG: budget 10*n of ITS
+    call, tol 1e-5; PINV/LSTSQ: default tolerances; Cholesky: lower) — not the state of a sibling object."""
+    s = S()
+    g = gen(2900)
+    objs = {"CG": [s.CG() for _ in range(3)], "PINV": [s.PINV() for _ in range(3)], "LSTSQ": [s.LSTSQ() for _ in range(3)],
+            "Cholesky": [s.Cholesky() for _ in range(3)]}
+    sizes = [2, 40, 3, 33, 5, 24]
+    for k, n in enumerate(sizes):
+        A = spd_matrix(n, "log", 3 if n >= 10 else 0, g)
+        b = torch.randn(n, 1, generator=g, dtype=torch.float64)
+        R = torch.randn(n + 2, n, generator=g, dtype=torch.float64)
+        rb = torch.randn(n + 2, 1, generator=g, dtype=torch.float64)
+        for name in ("CG", "PINV", "LSTSQ", "Cholesky"):
+            sol = objs[name][k % 3]
+            case = {"kind": "shared-defaults", "solver": name, "call": k, "n": n}
+            ctx.count("shared-defaults")
+            ctx.note_case(("shared-defaults", name, k), True)
+            try:
+                if name in ("CG", "Cholesky"):
+                    x = sol(A.clone(), b.clone())
+                    res = float((A @ x - b).norm() / b.norm())
+                    lim = 1e-5 * (1 + 1e-6) + 1e-9 if name == "CG" else 1e-9
+                else:
+                    x = sol(R.clone(), rb.clone())
+                    res = float((R.T @ (R @ x - rb)).norm() / (torch.linalg.matrix_norm(R, 2) ** 2 * x.norm() + 1e-300))
+                    lim = 1e-10
+                if not (res <= lim):
+                    ctx.fail(case, f"shared-defaults: the {k % 3}-th of three default-constructed {name} objects, used interleaved, returns a "
+                                   f"vector with relative residual {res:.3e} > {lim:.1e} on call {k} (n={n}): not the documented default behaviour")
+            except Exception as e:
+                ctx.fail(case, f"raises: default-constructed {name} raised on call {k}: {type(e).__name__}: {str(e)[:80]}")
+
+
+def check_complex(ctx: Ctx):
+    """(30) the direct solvers are documented for complex matrices and accept complex64 / complex128: least-squares law
+    with the CONJUGATE transpose, minimum norm for PINV, Hermitian positive definite / indefinite for Cholesky; value and
+    dtype.  (Integer, bool and half dtypes are refused loudly by the kernels; CG on complex / half input is outside the
+    property and recorded in the notes.)"""
+    s = S()
+    g = gen(3000)
+    for dtn, eps in (("complex128", EPS["float64"]), ("complex64", EPS["float32"])):
+        dt = getattr(torch, dtn)
+
+        def crandn(*shape):
+            return torch.complex(torch.randn(*shape, generator=g, dtype=torch.float64), torch.randn(*shape, generator=g, dtype=torch.float64))
+        for (m, n, r, batch) in ((5, 3, 3, ()), (3, 6, 3, ()), (6, 4, 2, ()), (4, 4, 4, (3,)), (7, 2, 1, (2, 2)), (1, 1, 1, ())):
+            B_ = crandn(*batch, m, r) * 2
+            C_ = crandn(*batch, r, n) * 2
+            A = (torch.complex(B_.real.round(), B_.imag.round()) @ torch.complex(C_.real.round(), C_.imag.round()))
+            A = A + (torch.eye(m, n, dtype=torch.complex128) * (3 if r == min(m, n) else 0))
+            b = crandn(*batch, m, 1)
+            A, b = A.to(dt), b.to(dt)
+            for name, mk in (("PINV", s.PINV), ("LSTSQ", s.LSTSQ), ("LSTSQ:gelsd", lambda: s.LSTSQ(driver="gelsd"))):
+                case = {"kind": "complex", "solver": name, "dtype": dtn, "m": m, "n": n, "r": r, "batch": list(batch)}
+                ctx.count(f"complex.{name.split(':')[0]}")
+                ctx.note_case(("complex", name, dtn, m, n, r, batch), True)
+                try:
+                    x = mk()(A.clone(), b.clone())
+                except Exception as e:
+                    ctx.fail(case, f"raises: {name} raised on a {dtn} system ({m}x{n}): {type(e).__name__}: {str(e)[:80]}")
+                    continue
+                if not isinstance(x, torch.Tensor) or x.dtype != dt or tuple(x.shape) != tuple(batch) + (n, 1):
+                    ctx.fail(case, f"shape: {name} on {dtn} input returned {getattr(x, 'dtype', None)} {getattr(x, 'shape', None)}")
+                    continue
+                Ad, bd, xd = A.to(torch.complex128), b.to(torch.complex128), x.to(torch.complex128)
+                sv = torch.linalg.svdvals(Ad)
+                s1 = sv[..., 0]
+                rk = (sv > 1e-6 * s1[..., None]).sum(-1)
+                sr = torch.gather(sv, -1, (rk - 1).clamp_min(0)[..., None])[..., 0]
+                kap = torch.where(rk > 0, s1 / sr.clamp_min(1e-300), torch.ones_like(s1))
+                gn = (Ad.mH @ (Ad @ xd - bd)).norm(dim=(-2, -1))
+                tol = 64 * eps * max(m, n) * s1 * (s1 * xd.norm(dim=(-2, -1)) + bd.norm(dim=(-2, -1))) * (kap if name == "PINV" else 1.0)
+                if bool((gn > tol + 1e-300).any()):
+                    ctx.fail(case, f"ls-certificate: {name} on a {dtn} system: |A^H(Ax-b)| = {float(gn.max()):.3e} > {float(tol.min()):.3e} "
+                                   f"({m}x{n}, rank {r})")
+                if name == "PINV":
+                    _, _, Vh = torch.linalg.svd(Ad, full_matrices=True)
+                    nullc = torch.stack([(Vh.reshape(-1, n, n)[i][int(rk.reshape(-1)[i]):] @ xd.reshape(-1, n, 1)[i]).norm()
+                                         for i in range(rk.numel())]).reshape(rk.shape)
+                    toln = 64 * eps * max(m, n) * kap * (xd.norm(dim=(-2, -1)) + bd.norm(dim=(-2, -1)) / sr.clamp_min(1e-300))
+                    if bool((nullc > toln + 1e-300).any()):
+                        ctx.fail(case, f"ls-minnorm: PINV on a {dtn} system is not the minimum-norm solution (null-space component "
+                                       f"{float(nullc.max()):.3e})")
+        for n, batch in ((1, ()), (4, ()), (6, (3,))):
+            Z = crandn(*batch, n, n)
+            H = (Z @ Z.mH + torch.eye(n, dtype=torch.complex128)).to(dt)
+            H = (H + H.mH) / 2
+            b = crandn(*batch, n, 1).to(dt)
+            for upper in (False, True):
+                case = {"kind": "complex", "solver": "Cholesky", "dtype": dtn, "n": n, "upper": upper, "batch": list(batch)}
+                ctx.count("complex.Cholesky")
+                try:
+                    x = s.Cholesky(upper=upper)(H.clone(), b.clone())
+                    rr = (H.to(torch.complex128) @ x.to(torch.complex128) - b.to(torch.complex128)).norm() / b.to(torch.complex128).norm()
+                    if x.dtype != dt or float(rr) > 64 * eps * n * float(torch.linalg.cond(H.to(torch.complex128)).max()):
+                        ctx.fail(case, f"chol-residual: Cholesky on a {dtn} Hermitian PD system: relative residual {float(rr):.3e}, dtype {x.dtype}")
+                except Exception as e:
+                    ctx.fail(case, f"chol-raises: Cholesky raised on a {dtn} Hermitian positive-definite system: {type(e).__name__}")
+                try:
+                    Hi = H.clone()
+                    Hi.reshape(-1, n, n)[-1] = -Hi.reshape(-1, n, n)[-1]
+                    s.Cholesky(upper=upper)(Hi, b.clone())
+                    ctx.fail(case, f"chol-silent: Cholesky returned a vector for a {dtn} Hermitian matrix that is not positive definite")
+                except Exception:
+                    pass
+
+
+def check_alias_args(ctx: Ctx):
+    """(31) operands that ARE each other: b is A (solve A X = A: X = I), M is A, the initial guess is b (the very same
+    tensor object) — results must still be right and A untouched"""
+    s = S()
+    g = gen(3100)
+    for n in (1, 3, 8, 20):
+        A0 = spd_matrix(n, "log", 1, g)
+        b0 = torch.randn(n, 1, generator=g, dtype=torch.float64)
+        I = torch.eye(n, dtype=torch.float64)
+        for name, mk in (("PINV", s.PINV), ("LSTSQ", s.LSTSQ), ("Cholesky", s.Cholesky), ("Cholesky:upper", lambda: s.Cholesky(upper=True))):
+            case = {"kind": "alias-args", "solver": name, "n": n, "how": "b is A"}
+            ctx.count("alias-args")
+            ctx.note_case(("alias-args", name, n), True)
+            A = A0.clone()
+            try:
+                X = mk()(A, A)
+                if not torch.equal(A, A0) or tuple(X.shape) != (n, n) or float((X - I).abs().max()) > 64 * EPS["float64"] * n * 10:
+                    ctx.fail(case, f"alias-args: {name}(A, A) (the same tensor as matrix and right-hand side) does not return the identity "
+                                   f"(max deviation {float((X - I).abs().max()):.3e}) or changed A")
+            except Exception as e:
+                ctx.fail(case, f"raises: {name}(A, A) raised: {type(e).__name__}: {str(e)[:80]}")
+        for how in ("x0 is b", "M is A", "x0 is b, M is A"):
+            case = {"kind": "alias-args", "solver": "CG", "n": n, "how": how}
+            ctx.count("alias-args")
+            A = 0.05 * spd_matrix(n, "log", 2 if n > 1 else 0, g)     # solution 20..2000x longer than b, several passes needed
+            if "M is" in how:
+                A = 0.05 * spd_matrix(n, "log", 1 if n > 1 else 0, g)  # (M = A squares the condition number)
+            A1, b = A.clone(), b0.clone()
+            try:
+                x = s.CG()(A1, b, b if "x0" in how else None, A1 if "M is" in how else None)
+                res = float((A @ x - b0).norm() / b0.norm())
+                if not torch.equal(A1, A) or res > 1e-5 * (1 + 1e-6) + 1e-12:
+                    ctx.fail(case, f"alias-args: CG with {how}: |b-Ax|/|b| = {res:.3e} (against the original b) or A changed")
+            except Exception as e:
+                ctx.fail(case, f"raises: CG with {how} raised: {type(e).__name__}: {str(e)[:80]}")
+
+
+def check_repeat_bitwise(ctx: Ctx):
+    """(32) a module-level constant written in place by ANOTHER operation: between two identical calls of every public
+    entry point (each dtype, single item and batch of one) every other entry point runs; the two results must agree bit
+    for bit"""
+    s, o = S(), O()
+    g = gen(3200)
+    calls = []
+    for dt in (torch.float64, torch.float32):
+        for batch in ((), (1,), (1, 1)):
+            Z = torch.randn(*batch, 3, 3, generator=g, dtype=torch.float64)
+            A = (Z @ Z.mT + torch.eye(3, dtype=torch.float64)).to(dt)
+            b = torch.randn(*batch, 3, 1, generator=g, dtype=torch.float64).to(dt)
+            R = torch.randn(*batch, 4, 3, generator=g, dtype=torch.float64).to(dt)
+            rb = torch.randn(*batch, 4, 1, generator=g, dtype=torch.float64).to(dt)
+            calls += [("PINV", lambda R=R, rb=rb: s.PINV()(R, rb)), ("LSTSQ", lambda R=R, rb=rb: s.LSTSQ()(R, rb)),
+                      ("Cholesky", lambda A=A, b=b: s.Cholesky()(A, b)), ("Cholesky:upper", lambda A=A, b=b: s.Cholesky(upper=True)(A, b))]
+            if batch == ():
+                calls += [("CG", lambda A=A, b=b: s.CG()(A, b.clone())), ("CG:x0,M", lambda A=A, b=b: s.CG()(A, b.clone(), torch.ones_like(b), torch.eye(3, dtype=b.dtype))),
+                          ("CG:csr", lambda A=A, b=b: s.CG()(A.to_sparse_csr(), b.clone()))]
+        D1 = (torch.randint(0, 3, (4, 6), generator=g)).to(dt)
+        D2 = (torch.randint(0, 3, (6, 4), generator=g)).to(dt)
+        calls += [("bsr_bsc_matmul", lambda D1=D1, D2=D2: o.bsr_bsc_matmul(D1.to_sparse_bsr((2, 3)), D2.to_sparse_bsc((3, 2))).to_dense()),
+                  ("_sparse_csr_mm", lambda D1=D1, D2=D2: o._sparse_csr_mm(D1.to_sparse_csr(), D2.to_sparse_csc()).to_dense()),
+                  ("_sparse_csr_mm:1x1", lambda D1=D1, D2=D2: o._sparse_csr_mm(D1[:1, :1].to_sparse_bsr((1, 1)), D2[:1, :1].to_sparse_bsc((1, 1))).to_dense())]
+    first = []
+    for name, f in calls:
+        try:
+            first.append(f().clone())
+        except Exception as e:
+            first.append(e)
+    for (name, f), r1 in zip(calls[::-1], first[::-1]):
+        case = {"kind": "repeat", "call": name}
+        ctx.count("repeat")
+        try:
+            r2 = f()
+        except Exception as e:
+            r2 = e
+        if isinstance(r1, Exception) != isinstance(r2, Exception) or \
+                (isinstance(r1, torch.Tensor) and not torch.equal(torch.nan_to_num(r1), torch.nan_to_num(r2))):
+            ctx.fail(case, f"repeat: {name} returns something else the second time, after every other entry point of the module ran in "
+                           f"between (first {type(r1).__name__}, second {type(r2).__name__})")
+    ctx.note_case(("repeat", len(calls)), True)
+
+
 def check_large(ctx: Ctx):
     """(19) large batches (2^14+1, and 2^16+1 where cheap / in the thorough tier) of tiny systems in several shapes, a
     large single CG system and a large block grid.  Oracles that need no model on 10^5 items: split-consistency
@@ -1801,7 +2050,9 @@ def check_large(ctx: Ctx):
     lines, meta = [], []
     for name, mk, Bs in (("PINV", lambda: make_solver("PINV"), [16385] if ctx.quick else [16385, 65537]),
                          ("LSTSQ", lambda: make_solver("LSTSQ"), [16385] if ctx.quick else [16385, 65537]),
-                         ("Cholesky", lambda: S().Cholesky(), [16385, 65537])):
+                         ("Cholesky", lambda: S().Cholesky(), [16385, 2 ** 17 + 1] if ctx.quick else [16385, 65537, 2 ** 18 + 37, 2 ** 20 + 1])):
+        if not ctx.quick and name != "Cholesky":
+            Bs = Bs + [2 ** 18 + 1, 2 ** 18 + 37]
         for B in Bs:
             m, n = (2, 2) if name == "Cholesky" else (3, 2)
             Z = torch.randn(B, m, n, generator=g, dtype=torch.float64)
@@ -1819,19 +2070,21 @@ def check_large(ctx: Ctx):
                 if not ok:
                     ctx.fail(case, f"shape: {name} on a batch of {B} returned {getattr(x, 'shape', None)}")
                     continue
-                for a_ in (1, B // 2, 4096, B - 1):
+                # cut points incl. the remainders B % 2^k (a block loop with floor division drops exactly those items)
+                cuts = (1, B // 2, 4096, B - 1) if B < 2 ** 17 else (B - B % 2 ** 16, B - B % 2 ** 12)
+                for a_ in cuts:
                     xs = torch.cat([mk()(A[:a_], b[:a_]), mk()(A[a_:], b[a_:])])
                     if not torch.equal(torch.nan_to_num(x), torch.nan_to_num(xs)):
                         bad = int(((x - xs).abs().amax(dim=(-2, -1)) > 0).nonzero()[0])
                         ctx.fail(case, f"large-split: {name} on a batch of {B} differs from the same batch solved in two parts "
                                        f"[:{a_}] / [{a_}:] (first differing item {bad})")
                         break
-                for i in (0, B - 1, int(torch.randint(0, B, (), generator=g))):
+                for i in (0, B - 1, B - 2, B - B % 4096, int(torch.randint(0, B, (), generator=g))):
                     if not torch.equal(torch.nan_to_num(x[i:i + 1]), torch.nan_to_num(mk()(A[i:i + 1], b[i:i + 1]))):
                         ctx.fail(case, f"large-item: item {i} of a batch of {B} solved by {name} differs from the same item solved alone")
                         break
                 # shapes with the same element count
-                if name != "LSTSQ" or not ctx.quick:
+                if (name != "LSTSQ" or not ctx.quick) and B < 2 ** 17:
                     x2 = mk()(A.reshape(1, B, *A.shape[1:]), b.reshape(1, B, *b.shape[1:]))
                     if tuple(x2.shape) != (1, B, n, 1) or not torch.equal(torch.nan_to_num(x2[0]), torch.nan_to_num(x)):
                         ctx.fail(case, f"large-split: {name} on batch shape (1,{B}) differs from batch shape ({B},)")
@@ -1919,6 +2172,52 @@ def check_subclass(ctx: Ctx):
         def __init__(self):
             super().__init__(upper=True)
 
+    class PropCG(s.CG):            # (33) attributes overridden as PROPERTIES computed on the fly
+        def __init__(self):
+            super().__init__()
+
+        @property
+        def tol(self):
+            return 1e-9
+
+        @tol.setter
+        def tol(self, v):
+            pass
+
+        @property
+        def maxiter(self):
+            return None
+
+        @maxiter.setter
+        def maxiter(self, v):
+            pass
+
+    class PropPINV(s.PINV):
+        @property
+        def rtol(self):
+            return None
+
+        @rtol.setter
+        def rtol(self, v):
+            pass
+
+        @property
+        def hermitian(self):
+            return False
+
+        @hermitian.setter
+        def hermitian(self, v):
+            pass
+
+    class PropChol(s.Cholesky):
+        @property
+        def upper(self):
+            return True
+
+        @upper.setter
+        def upper(self, v):
+            pass
+
     class Wrap(torch.nn.Module):
         def __init__(self, inner):
             super().__init__()
@@ -1934,6 +2233,7 @@ def check_subclass(ctx: Ctx):
     R = torch.randn(9, 5, generator=g, dtype=torch.float64)
     rb = torch.randn(9, 1, generator=g, dtype=torch.float64)
     pairs = [("CG", MyCG(), s.CG(tol=1e-9), A, b), ("CG", MyCG2(), s.CG(), A, b), ("CG", Wrap(s.CG()), s.CG(), A, b),
+             ("CG", PropCG(), s.CG(tol=1e-9), A, b), ("PINV", PropPINV(), s.PINV(), R, rb), ("Cholesky", PropChol(), s.Cholesky(upper=True), A, b),
              ("PINV", MyPINV(), s.PINV(), R, rb), ("LSTSQ", MyLSTSQ(), s.LSTSQ(), R, rb), ("LSTSQ", Wrap(MyLSTSQ()), s.LSTSQ(), R, rb),
              ("Cholesky", MyChol(), s.Cholesky(upper=True), A, b)]
     for name, user, ref, A_, b_ in pairs:
@@ -1950,7 +2250,7 @@ def check_subclass(ctx: Ctx):
                            f"(max difference {float((xr - xu).abs().max()):.3e})")
         if name == "CG":
             res = float((b_ - A_ @ xu).norm() / b_.norm())
-            tol_ = 1e-9 if isinstance(user, MyCG) else 1e-5
+            tol_ = 1e-9 if isinstance(user, (MyCG, PropCG)) else 1e-5
             if res > tol_ * (1 + 1e-6) + 1e-12:
                 ctx.fail(case, f"cg-residual: {type(user).__name__} (tol {tol_}) returned x with |b-Ax|/|b| = {res:.3e}")
 
@@ -2445,7 +2745,18 @@ def gen_ls_cases(ctx: Ctx, count):
             it["bscale"] = rng.choice([0, 0, 0, -30, 30] + ([-100, 100] if dtype == "float64" else []))
             it["seed"] = rng.randrange(1 << 30)
             items.append(it)
-        if nb >= 3 and solver not in HERM_CFG and solver not in FULLRANK_CFG and rng.random() < 0.35:
+        if solver in ("PINV", "LSTSQ", "LSTSQ:gelsd", "LSTSQ:gelss", "LSTSQ:gelsy", "LSTSQ:gels") and rng.random() < 0.3:
+            st_ = rng.choice(["sym", "symrel", "symrel", "tril", "triu", "diag", "stencil", "lowrank", "zero"])
+            dex = rng.choice([3, 4, 5, 6, 7, 8] + ([9, 10, 12, 14] if st_ not in ("lowrank",) else [])) if dtype == "float64" \
+                else rng.choice([2, 3, 4, 5])
+            if st_ != "lowrank":
+                n = m
+            for it in items:
+                it.clear()
+                it.update({"kind": "float", "cexp": rng.choice([0, 1, 2]), "ascale": rng.choice([0, 0, -20, 20]),
+                           "near": {"struct": st_, "dexp": dex}, "b": rng.choice(["generic", "generic", "consistent"]), "bscale": 0,
+                           "seed": rng.randrange(1 << 30)})
+        elif nb >= 3 and solver not in HERM_CFG and solver not in FULLRANK_CFG and rng.random() < 0.35:
             # mixed-regime batch: zero matrix, worst conditioning + extreme scale, rank-deficient graded, ordinary — side by side
             cmax = 8 if dtype == "float64" else 3
             items[0].update({"kind": "int", "r": 0, "cexp2": 0})
@@ -2497,7 +2808,7 @@ def run_ls(ctx: Ctx, cases):
 def gen_chol_cases(ctx: Ctx, count):
     rng = ctx.rng
     cases = []
-    good = ["spd", "spd", "spd", "intspd"]
+    good = ["spd", "spd", "spd", "intspd", "neardiag"]
     bad = ["indef", "indef", "singular", "negdef", "zero", "badlast", "badfirst", "badmid"]
     for i in range(count):
         dtype = rng.choice(["float64", "float64", "float32"])
@@ -2524,6 +2835,9 @@ def gen_chol_cases(ctx: Ctx, count):
                 it["nexp"] = rng.choice([0, 1, 3] + ([6, 9] if dtype == "float64" else []))
             if kind == "badmid":
                 it["j"] = rng.randrange(64)
+            if kind == "neardiag":
+                it["cexp"] = rng.choice([0, 1, 2])
+                it["dexp"] = rng.choice([1, 3, 5, 6, 8, 12] if dtype == "float64" else [1, 2, 3, 5])
             if kind in ("badlast", "badfirst", "badmid"):
                 it["by"] = rng.choice([1, 1, 5])
             its.append(it)
@@ -2573,7 +2887,7 @@ def gen_cg_cases(ctx: Ctx, count):
         layouts = ["dense", "dense", "csr", "coo"] + [f"bsr:{k}" for k in (1, 2, 3, 4) if n % k == 0]
         cases.append({
             "kind": "cg", "n": n, "dtype": dtype, "layout": rng.choice(layouts),
-            "spec": rng.choice(["log", "cluster", "outlier", "uniform", "lap"]), "cexp": cexp,
+            "spec": rng.choice(["log", "cluster", "outlier", "uniform", "lap", "neardiag:%d" % rng.choice([1, 3, 6, 9, 12])]), "cexp": cexp,
             "ascale": rng.choice([0, 0, 0, -30, 30, 10] + ([-100, 100] if dtype == "float64" else [])),
             "bscale": rng.choice([0, 0, -30, 30, -10, 17] + ([-100, 100] if dtype == "float64" else [])),
             "b": rng.choice(["generic"] * 6 + ["zero", "e0", "negative", "sumzero"]),
@@ -2755,7 +3069,8 @@ def run_dispatch(ctx: Ctx, skip_merge_join=False):
 
 def run(ctx: Ctx):
     torch.set_num_threads(1)   # all systems are <= 40 x 40: threads only add contention on a shared box
-    check_mode_orders(ctx)          # first: its keys (shapes) must be fresh in the process
+    check_shared_defaults(ctx)      # very first: state shared through defaults is frozen by the FIRST call in the process
+    check_mode_orders(ctx)          # next: its keys (shapes) must be fresh in the process
     C = corner_cases()
     tL, tC, tG = corner_ties()
     C["ls"] += tL
@@ -2768,6 +3083,9 @@ def run(ctx: Ctx):
     check_duck(ctx)
     check_cg_entry(ctx)
     check_subclass(ctx)
+    check_complex(ctx)
+    check_alias_args(ctx)
+    check_repeat_bitwise(ctx)
     check_large(ctx)
     run_chol_cases(ctx, C["chol"])
     run_ls(ctx, C["ls"])
@@ -2843,6 +3161,14 @@ def replay(ctx: Ctx, case) -> bool:
         check_large(ctx)
     elif kind == "subclass":
         check_subclass(ctx)
+    elif kind == "shared-defaults":
+        check_shared_defaults(ctx)
+    elif kind == "complex":
+        check_complex(ctx)
+    elif kind == "alias-args":
+        check_alias_args(ctx)
+    elif kind == "repeat":
+        check_repeat_bitwise(ctx)
     elif kind == "mode-order":
         check_mode_orders(ctx)
     elif kind == "import":
